@@ -49,3 +49,10 @@ Proof.
       apply Z.bits_above_log2; [lia|]. assert (Z.log2 r2 < n) by (apply Z.log2_lt_pow2; lia). lia. }
     congruence.
 Qed.
+
+(* value of a big-endian base-256 digit string: first byte is the most significant *)
+Fixpoint be_value (l : list Z) : Z :=
+  match l with [] => 0 | d :: r => d * 256 ^ (Z.of_nat (length r)) + be_value r end.
+(* l is THE big-endian representation of (v mod 256^n) on n bytes *)
+Definition is_big_endian (n v : Z) (l : list Z) : Prop :=
+  Z.of_nat (length l) = n /\ Forall (fun d => 0 <= d < 256) l /\ be_value l = v mod 256 ^ n.
